@@ -1,11 +1,15 @@
 TUS = ['src/base/QXmppDataForm.cpp']
 MODELS = ['c20_qt_core.c', 'c20_qt_list.c', 'c20_models.c']
 LB = {'check_against_oracle': 42, 'verificationStringEv': 4}
+VS = 'F__ZNK16QXmppDiscoveryIq18verificationStringEv'
+# every loop of verificationString walks a list of at most 3 elements (identities 2, features 3, fields 3, keys 2): bound 4.
+# (a list whose length is symbolic would otherwise be walked up to the global bound through slots that hold no element)
+VS_UW = ['%s.%d:4' % (VS, k) for k in range(10)]
 def I(name, entry, n=(), **kw):
     cd = {'C20_HAVE_IDLESS': 1}
     for k, v in enumerate(n):
         if v is not None: cd['C_N%d' % k] = v
-    d = dict(name=name, entry=entry, cdefs=cd, unwind=9, timeout_s=300, mem_gb=6, solver='cadical', tiers=('quick', 'thorough'), bound=''); d.update(kw); return d
+    d = dict(name=name, entry=entry, cdefs=cd, unwindset=list(VS_UW), unwind=9, timeout_s=300, mem_gb=6, solver='cadical', tiers=('quick', 'thorough'), bound=''); d.update(kw); return d
 def G(name, insts, **defs):
     return dict(name=name, harness='h_vs.cpp', tus=TUS, models=MODELS, cxxdefs=defs, loop_bounds=LB, instances=insts)
 SPEC = dict(
@@ -17,6 +21,7 @@ SPEC = dict(
             I('feat_iff_3_3', 'h_feat_iff', (3, 3, 1)), I('feat_iff_3_2', 'h_feat_iff', (3, 2, 1)), I('feat_iff_3_1', 'h_feat_iff', (3, 1, 1)), I('feat_iff_2_2_noid', 'h_feat_iff', (2, 2, 0)),
             I('id_iff_2_2', 'h_id_iff', (2, 2)), I('id_iff_2_1', 'h_id_iff', (2, 1)),
             I('form_ref_2f', 'h_form_ref', (1, 0, 2, 1, 2, 1, 1)),
+            I('form_ref_1m', 'h_form_ref', (1, 0, 2, 0, 1, 1, 0, 1)), I('form_ref_2s', 'h_form_ref', (1, 0, 1, 1, 2, 1, 2, 0)),
         ]),
     ],
     bounds=[], assumptions=[], outside=[],
